@@ -402,12 +402,16 @@ def main():
     exit_code = core.EXIT_HELD
     reported = []
     known_hits = []
-    for sig, (r, v) in list(by_sig.items())[:6]:
+    seen_min = set()
+    for sig, (r, v) in list(by_sig.items())[:8]:
         from sim import cachesim
         spec = cachesim.make_spec(root, r['run_index'], thorough)
         m = Minimiser(spec, r, v['clause'])
         mspec, mres = m.run()
         mv = [x for x in mres['violations'] if x['clause'] == v['clause']][0]
+        if mv['signature'] in seen_min:
+            continue
+        seen_min.add(mv['signature'])
         doc = {'engine': 'cachesim', 'property': PROP, 'verif_seed': root, 'run_index': r['run_index'],
                'seed': spec['seed'], 'thorough': thorough, 'config': mspec['config'],
                'workload': mspec['workload'], 'decisions': mspec['decisions'], 'violation': mv,
